@@ -20,6 +20,20 @@ type fpState struct {
 	// skipType: fully-qualified type names not descended into (rendered as
 	// opaque); used for state no caller can observe directly.
 	skip map[string]bool
+	// exportedOnly: unexported struct fields are not rendered (state no
+	// caller can reach directly)
+	exportedOnly bool
+}
+
+// FingerprintExported renders only what a caller can reach through exported
+// fields (pointers, slices and interfaces behind them included).
+func FingerprintExported(v any, skipTypes ...string) string {
+	st := &fpState{visited: map[uintptr]int{}, skip: map[string]bool{}, exportedOnly: true}
+	for _, s := range skipTypes {
+		st.skip[s] = true
+	}
+	st.walk(reflect.ValueOf(v))
+	return st.sb.String()
 }
 
 func Fingerprint(v any, skipTypes ...string) string {
@@ -79,6 +93,9 @@ func (s *fpState) walk(v reflect.Value) {
 		s.sb.WriteString(t.String() + "{")
 		for i := 0; i < v.NumField(); i++ {
 			f := v.Field(i)
+			if s.exportedOnly && !t.Field(i).IsExported() {
+				continue
+			}
 			if !f.CanInterface() {
 				if !f.CanAddr() {
 					// copy into an addressable value to read unexported fields
